@@ -1,6 +1,9 @@
 /-
 Helper lemmas for C16, part 2: structural lemmas showing that `normalize_predicate` erases
-arbitrary junk from a formula spelling.
+arbitrary junk from a formula spelling; then (from "Whitespace and `strip`" on) the decorated
+spellings: `not`/`is`/`!` before or after a formula spelling (unbounded junk, any case, any outer
+whitespace), and the 19 names under every case mask and decoration (structural reduction to
+lower-case strings + finite kernel-checked tables).
 -/
 import Paroxy.Proofs.NamesFacts
 namespace Paroxy.NP
@@ -1210,5 +1213,71 @@ theorem name_spec_decorated (n : Codes) (k : Key) (h : (n, k) ∈ aliases) (d : 
   have hn := List.all_eq_true.mp aliases_lower (n, k) h
   rw [normalize_eq, lower_append, lower_append, renderName_lower n mask hn]
   exact beq_iff_eq.mp row
+
+/-! ### The specification's decoration list around formula spellings -/
+
+/-- The specification's decoration list, spelled out in code points. -/
+def decorationsExplicit : List (Str × Str × Bool) :=
+  [ ([], [], false), ([32, 32], [32], false),
+    ([105, 115, 32], [], false), ([], [32, 105, 115], false), ([32, 73, 83, 32], [32, 32], false),
+    ([33], [], true), ([33, 32], [], true), ([32, 33, 32, 32], [32], true), ([33, 105, 115, 32], [], true),
+    ([33, 32, 105, 115, 32], [], true),
+    ([110, 111, 116, 32], [], true), ([78, 79, 84, 32], [], true),
+    ([105, 115, 32, 110, 111, 116, 32], [], true), ([73, 115, 32, 78, 111, 116, 32], [32], true),
+    ([], [32, 110, 111, 116], true), ([], [32, 105, 115, 32, 110, 111, 116], true),
+    ([105, 115, 32], [32, 110, 111, 116], true), ([32], [32, 78, 79, 84, 32], true) ]
+
+theorem decorations_explicit : decorations = decorationsExplicit := by decide +kernel
+
+/-- `not F` with `a` leading spaces and `b+1` spaces after `not` (the form of the task statement). -/
+theorem formula_not_prefix_spaces (k : Key) (hk : k ∈ allKeys) (st : FormulaStyle) (ok : StyleOk st) (a b : Nat) :
+    normalize names (List.replicate a 32 ++ sNot ++ List.replicate (b + 1) 32 ++ renderFormula k st) =
+      some (k.codes, true) := by
+  have := formula_not_prefix k hk _ (styleOk_pre ok (spaces_junk b)) (ws := List.replicate a 32) (wN := sNot)
+    (by simp [List.all_replicate, isSpace]) rfl
+  rw [← prepend_junk] at this
+  simpa [List.replicate_succ] using this
+
+/-- **Every decoration of the specification's list around every formula spelling.** -/
+theorem formula_spec_decorated (k : Key) (hk : k ∈ allKeys) (st : FormulaStyle) (ok : StyleOk st)
+    (d : Str × Str × Bool) (hd : d ∈ decorations) :
+    normalize names (d.1 ++ renderFormula k st ++ d.2.1) = some (k.codes, d.2.2) := by
+  rw [decorations_explicit] at hd
+  simp only [decorationsExplicit, List.mem_cons, List.not_mem_nil, or_false] at hd
+  have j1 : ([32] : Str).all junkChar = true := rfl
+  have j2 : ([32, 32] : Str).all junkChar = true := rfl
+  rcases hd with rfl | rfl | rfl | rfl | rfl | rfl | rfl | rfl | rfl | rfl | rfl | rfl | rfl | rfl | rfl | rfl | rfl | rfl
+  · simpa using normalize_formula' k hk st ok
+  · have := normalize_formula' k hk _ (styleOk_pre (styleOk_post ok j1) j2)
+    rw [← prepend_junk, ← append_junk] at this
+    simpa using this
+  · simpa using formula_is_prefix k hk st ok (ws := []) (wI := [105, 115]) rfl rfl
+  · simpa using formula_is_suffix k hk st ok (ws := []) (wI := [105, 115]) rfl rfl
+  · have := formula_is_prefix k hk _ (styleOk_post ok j2) (ws := [32]) (wI := [73, 83]) rfl rfl
+    rw [← append_junk] at this
+    simpa using this
+  · simpa using normalize_formula_bang' k hk st ok 0 0
+  · simpa using normalize_formula_bang' k hk st ok 0 1
+  · have := normalize_formula_bang' k hk _ (styleOk_post ok j1) 1 2
+    rw [← append_junk] at this
+    simpa using this
+  · simpa using formula_bang_is_prefix k hk st ok (ws := []) (ws2 := []) (wI := [105, 115]) rfl rfl rfl
+  · simpa using formula_bang_is_prefix k hk st ok (ws := []) (ws2 := [32]) (wI := [105, 115]) rfl rfl rfl
+  · simpa using formula_not_prefix k hk st ok (ws := []) (wN := [110, 111, 116]) rfl rfl
+  · simpa using formula_not_prefix k hk st ok (ws := []) (wN := [78, 79, 84]) rfl rfl
+  · simpa using formula_is_not_prefix k hk st ok (ws := []) (ws2 := []) (wI := [105, 115]) (wN := [110, 111, 116])
+      rfl rfl rfl rfl
+  · have := formula_is_not_prefix k hk _ (styleOk_post ok j1) (ws := []) (ws2 := []) (wI := [73, 115])
+      (wN := [78, 111, 116]) rfl rfl rfl rfl
+    rw [← append_junk] at this
+    simpa using this
+  · simpa using formula_not_suffix k hk st ok (ws := []) (wN := [110, 111, 116]) rfl rfl
+  · simpa using formula_is_not_suffix k hk st ok (ws := []) (ws2 := []) (wI := [105, 115]) (wN := [110, 111, 116])
+      rfl rfl rfl rfl
+  · simpa using formula_is_prefix_not_suffix k hk st ok (ws := []) (ws' := []) (wI := [105, 115])
+      (wN := [110, 111, 116]) rfl rfl rfl rfl
+  · have := formula_not_suffix k hk _ (styleOk_pre ok j1) (ws := [32]) (wN := [78, 79, 84]) rfl rfl
+    rw [← prepend_junk] at this
+    simpa using this
 
 end Paroxy.NP
